@@ -7,7 +7,8 @@ from vlib import log
 
 CORE_TRUST = [
     "hand transliteration of src/bytes.rs and src/bytes_mut.rs into Model/Core.lean (regions, control blocks, handles, ~30 API "
-    "operations incl. every vtable function, reserve_inner, promote/shallow_clone, unsplit) — tied by T2 only: after every op the "
+    "operations incl. every vtable function, reserve_inner, promote/shallow_clone, unsplit) — tied by T1 for the vtable wiring and "
+    "representation constants (Generated/Wiring.lean vs the reviewed list, Cert/C01) and otherwise by T2 only: after every op the "
     "judge compares outcome, every live handle (kind, canonical allocation class + offset, len, capacity, is_unique, contents) and "
     "the allocator-event delta (byte buffers by size, control blocks by count) with the model",
     "std behaviour assumed and checked by T2: Vec::with_capacity/to_vec exact, Vec::reserve growth = max(2*cap, needed, 8), "
